@@ -23,7 +23,7 @@ import (
 
 // AdmitJob is one worker job of part C.
 type AdmitJob struct {
-	Kind string `json:"kind"` // matrix-tls-off | matrix-tls-on | client | redirect
+	Kind string `json:"kind"`           // matrix-tls-off | matrix-tls-on | client | redirect
 	Mode string `json:"mode,omitempty"` // matrix: play | record | lists ("" = all)
 	Only string `json:"only,omitempty"`
 }
